@@ -324,7 +324,7 @@ impl RunCfg {
         if caps.nrforms == 0 {
             w[6] = 0;
         }
-        if !caps.resreg || caps.is_stack {
+        if !caps.resreg {
             w[7] = 0;
         }
         if !caps.is_stack {
